@@ -3,6 +3,7 @@ import PestModel.Model.LineColDriver
 import PestModel.Model.PrattDriver
 import PestModel.Model.PStateDriver
 import PestModel.Model.ViewsDriver
+import PestModel.Model.GrammarDriver
 
 open PestModel
 
@@ -21,4 +22,5 @@ def main (args : List String) : IO UInt32 := do
   | ["pratt"] => loop stdin stdout PrattDriver.runLine; return 0
   | ["prog"] => loop stdin stdout PStateDriver.runLine; return 0
   | ["views"] => loop stdin stdout ViewsDriver.runLine; return 0
+  | ["grammar"] => loop stdin stdout GrammarDriver.runLine; return 0
   | _ => IO.eprintln "usage: pestmodel <mode>"; return 2
